@@ -467,17 +467,17 @@ impl Format for Mpq {
         v.push(reference(
             "ref_v1_userdata_prefix_zlib_sectored",
             &[wf(NAMES[0], &c[0], M_ZLIB, false, false, false), wf(NAMES[1], &c[1], M_ZLIB, false, false, false)],
-            &WOptions { version: 0, shift: 0, hash_size: 16, listfile: true, userdata_prefix: 512, deleted_slots: vec![] },
+            &WOptions { version: 0, shift: 0, hash_size: 16, listfile: true, userdata_prefix: 512, deleted_slots: vec![], reuse_deleted: true },
         ));
         v.push(reference(
             "ref_v2_deleted_slots_hash4_bzip2_single_unit_encrypted",
             &[wf(NAMES[0], &c[0], M_BZIP2, true, false, true), wf(NAMES[2], &c[2], M_BZIP2, true, true, true)],
-            &WOptions { version: 1, shift: 1, hash_size: 4, listfile: true, userdata_prefix: 0, deleted_slots: vec![0, 3] },
+            &WOptions { version: 1, shift: 1, hash_size: 4, listfile: true, userdata_prefix: 0, deleted_slots: vec![0, 3], reuse_deleted: true },
         ));
         v.push(reference(
             "ref_v1_store_sectored_encrypted_fixkey",
             &[wf(NAMES[1], &c[1], 0, true, true, false), wf(NAMES[2], &c[2], M_ZLIB, true, false, false)],
-            &WOptions { version: 0, shift: 0, hash_size: 8, listfile: true, userdata_prefix: 0, deleted_slots: vec![] },
+            &WOptions { version: 0, shift: 0, hash_size: 8, listfile: true, userdata_prefix: 0, deleted_slots: vec![], reuse_deleted: true },
         ));
         // patch archive: the entry is flagged PATCH_FILE; stored = TPatchInfo (28 bytes) + PTCH blob
         for kind in ["COPY", "BSD0"] {
@@ -492,10 +492,10 @@ impl Format for Mpq {
             let mut s = reference(
                 &format!("ref_v1_patch_entry_{}", kind.to_lowercase()),
                 &[pf, wf(NAMES[0], &c[0], M_ZLIB, false, false, false)],
-                &WOptions { version: 0, shift: 3, hash_size: 8, listfile: true, userdata_prefix: 0, deleted_slots: vec![] },
+                &WOptions { version: 0, shift: 3, hash_size: 8, listfile: true, userdata_prefix: 0, deleted_slots: vec![], reuse_deleted: true },
             );
             // the base archive the patch chain starts from
-            let base = mpqref::write(&[wf("patched.bin", &base_file(), M_ZLIB, false, false, false)], &WOptions { version: 0, shift: 3, hash_size: 8, listfile: true, userdata_prefix: 0, deleted_slots: vec![] })
+            let base = mpqref::write(&[wf("patched.bin", &base_file(), M_ZLIB, false, false, false)], &WOptions { version: 0, shift: 3, hash_size: 8, listfile: true, userdata_prefix: 0, deleted_slots: vec![], reuse_deleted: true })
                 .expect("base archive");
             s.extra = vec![base];
             s.aux = 1;
